@@ -1,7 +1,7 @@
 """Which units / harnesses decide which property."""
 
 # unit -> Verus rlimit ("roughly seconds"); every function is far below it on the unchanged tree
-UNIT_RLIMIT = {'conn': 60, 'lemmas': 60, 'request': 60, 'client': 60, 'response': 60}
+UNIT_RLIMIT = {'conn': 60, 'lemmas': 60, 'oneshot': 150, 'request': 60, 'client': 60, 'response': 120}
 
 PROPS = {
     'C01': dict(units=['conn', 'lemmas', 'client'], kani=['find_first_match_1', 'find_first_match_2'],
@@ -20,8 +20,11 @@ PROPS = {
     'C11': dict(units=['conn', 'lemmas', 'client'], kani=[], title='A rejected request is never delivered later'),
     'C12': dict(units=['conn', 'lemmas'], kani=[], title='Descriptors passed with a request are delivered once, in order'),
     'C13': dict(units=['conn', 'lemmas', 'client', 'response'], kani=[], title='100 Continue is sent exactly when asked for'),
-    'C14': dict(units=['request', 'lemmas', 'conn', 'response'], kani=['find_first_match'],
-                title='One-shot request parsing agrees with the incremental connection parser'),
+    'C14': dict(units=['request', 'oneshot', 'conn', 'response'], kani=['find_first_match'],
+                title='One-shot request parsing agrees with the incremental connection parser',
+                hypotheses=['hyp_block: Headers::try_from(block) succeeds with h iff folding Headers::parse_header_line (ignoring UnsupportedValue) over the CRLF-separated lines of the block succeeds with h -- C15\'s block-vs-lines clause, str/HashMap code, ASSUMED',
+                            'hyp_request_line: the request-line function used by the connection satisfies rl_outcome_ok / (Ok <=> rl_accepts) -- PROVED for RequestLine::try_from in unit request; that the connection calls a pure function is assumed',
+                            'hyp_default: Headers::default() has Content-Length 0 -- PROVED on the real Default impl in unit response (clause Headers.default_values.zero)']),
     'C16': dict(units=[], kani=['method_try_from_exact', 'version_try_from_exact', 'method_roundtrip', 'version_roundtrip',
                                'status_code_raw', 'mediatype_as_str', 'uri_abs_path_all'],
                 title='Token and URI functions are exact, case-sensitive and round-trip'),
